@@ -106,8 +106,10 @@ def cases(tier, seed):
             yield ('HF', op, m)
     for m in sp.structures_upto(3 if tier == 'quick' else 4):
         for leaves_only in (False, True):
-            for pre in ('none', 'some', 'all', 'some-valueless'):
+            for pre in ('none', 'some', 'all', 'some-valueless', 'similar-names'):
                 for dom in DOMAINS:
+                    if pre == 'similar-names' and dom not in ('list3', 'int', 'mixed', 'unset'):
+                        continue
                     yield ('G', m, leaves_only, pre, dom, 3 if tier == 'quick' else 4)
 
 
@@ -526,8 +528,8 @@ class Controller:
 def _expected_targets(model, leaves_only, pre):
     feats = sh.features(model)
     targeted = [f[0] for f in feats if (not leaves_only or not f[1])]
-    if pre == 'none':
-        have = []
+    if pre in ('none', 'similar-names'):
+        have = []       # ('similar-names': every feature carries attributes called max_cost, cost2, Cost, costs - none called cost)
     elif pre in ('some', 'some-valueless'):
         have = targeted[:1]
     else:
@@ -535,9 +537,11 @@ def _expected_targets(model, leaves_only, pre):
     return targeted, have
 
 
-def _with_pre(model, have, valueless=False):
+def _with_pre(model, have, valueless=False, similar=False):
     def rec(f):
         attrs = f[5] + (((ATTR, sh.freeze(None if valueless else 'KEEP')),) if f[0] in have else ())
+        if similar:
+            attrs = attrs + tuple((n, sh.freeze(1)) for n in ('max_' + ATTR, ATTR + '2', ATTR.capitalize(), ATTR + 's'))
         return (f[0], tuple((a, b, tuple(rec(k) for k in kids)) for (a, b, kids) in f[1]), f[2], f[3], f[4], attrs)
     return (rec(model[0]), model[1])
 
@@ -560,7 +564,7 @@ def _value_ok(v, spec):
 def _run_generation(model, leaves_only, pre, domkey, prefix):
     spec = DOMAINS[domkey]
     targeted, have = _expected_targets(model, leaves_only, pre)
-    base = _with_pre(model, have, valueless=(pre == 'some-valueless'))
+    base = _with_pre(model, have, valueless=(pre == 'some-valueless'), similar=(pre == 'similar-names'))
     fm, fails = cm.built(base)
     if fails:
         return None, fails
@@ -589,7 +593,8 @@ def _run_generation(model, leaves_only, pre, domkey, prefix):
             dom.set_range_list([Range(lo, hi) for (lo, hi) in spec[0]])
             dom.set_element_list(list(spec[1]))
         elif spec is not None:
-            op.set_domain(Domain([Range(lo, hi) for (lo, hi) in spec[0]], list(spec[1])))
+            dom = Domain([Range(lo, hi) for (lo, hi) in spec[0]], list(spec[1]))
+            op.set_domain(dom)
         op.set_only_leaf_features(leaves_only)
         try:
             op.execute(fm)
@@ -613,6 +618,12 @@ def _run_generation(model, leaves_only, pre, domkey, prefix):
     if raised is not None:
         out.append(Fail('generation-raises:%s' % type(raised).__name__, str(raised)[:200]))
         return ctl, out
+    try:
+        now = ([(r.min_value, r.max_value) for r in dom.get_range_list()], list(dom.get_element_list()))
+    except Exception as exc:  # noqa: BLE001
+        now = repr(exc)
+    if now != ([tuple(r) for r in spec[0]], list(spec[1])):
+        out.append(Fail('generation-changed-the-domain-it-was-given', {'given': repr(spec)[:150], 'now': repr(now)[:150]}))
     ob = bd.observe(fm)
     gain = [n for n in targeted if n not in have]
     # expected shadow: gainers get one extra attribute (value checked separately)
